@@ -307,6 +307,31 @@ def evaluate(case):
             c3.load(p)
             return c3.dumps()
         fails += core.file_cycle(ci, text, what, "composeinfo.json", reload=reload)
+    if not fails and case.get("uptype"):
+        # release types spelled with capitals: the documented normalisation is case-folding.  If the library agrees to write
+        # such a description, the cycle must hold for it (file re-read and re-written byte for byte, type read lower-case)
+        up = build(obj, conc)
+        up.compose.id = ci.compose.id
+        up.release.type = up.release.type.upper()
+        if obj["sec"]["layered"]:
+            up.base_product.type = up.base_product.type.capitalize()
+        for nd in obj["nodes"]:
+            if nd["type"] == "layered-product":
+                up[conc.uid(nd["path"])].release.type = "GA"
+        try:
+            t_up = up.dumps()
+        except (ValueError, TypeError):
+            t_up = None                     # not agreed to write: outside the claim
+        if t_up is not None:
+            c4 = ComposeInfo()
+            try:
+                c4.loads(t_up)
+                if c4.release.type != obj["sec"]["reltype"]:
+                    fails.append("%s: release type written as %r is read back as %r, documented: case-folded" % (what, up.release.type, c4.release.type))
+                if c4.dumps() != t_up:
+                    fails.append("%s: description with release types in capitals is written, but writing the re-read object does not reproduce the file" % what)
+            except Exception as exc:
+                fails.append("%s: description with release types in capitals is written but cannot be read back: %s: %s" % (what, type(exc).__name__, exc))
     if not fails:
         fails += ["%s: %s" % (what, f) for f in mutate_and_redump(obj, conc, ci, c2)]
     return fails[:6]
